@@ -145,10 +145,14 @@ Rep(st, i, old, new) ==
            ks == {k \in 1..Len(nh) : nh[k] = old}
        IN IF ks = {} THEN [st EXCEPT !.panic = TRUE]
           ELSE [st EXCEPT !.nodes[i].nhd[RTMin(ks)] = new]
-\* node.other_neighbor(ns): first neighbour not in ns; 0 stands for the failing expect
-RTOther(nd, ns) ==
+\* node.other_neighbor(ns): first neighbour not in ns; 0 stands for the failing expect.
+\* RTOtherK(.., 2) is the SECOND such neighbour: never taken by the code, used only by the
+\* order-insensitive abstraction of MC_RankTree (NORMALIZE), see LocalSwapD.
+RTOtherK(nd, ns, dk) ==
   LET ks == {k \in 1..Len(nd.nhd) : nd.nhd[k] \notin ns}
-  IN IF ks = {} THEN 0 ELSE nd.nhd[RTMin(ks)]
+  IN IF Cardinality(ks) < dk THEN 0
+     ELSE IF dk = 1 THEN nd.nhd[RTMin(ks)] ELSE nd.nhd[RTMin(ks \ {RTMin(ks)})]
+RTOther(nd, ns) == RTOtherK(nd, ns, 1)
 \* swap_subtrees((p1, c1), (p2, c2))
 SwapSubtrees(st, p1, c1, p2, c2) ==
   Rep(Rep(Rep(Rep(st, p1, c1, c2), p2, c2, c1), c1, p1, p2), c2, p2, p1)
@@ -183,7 +187,7 @@ SwapLeaves(nodes, ranks, l1, l2) ==
 LocalSwapArgs(nodes) ==
   IF Len(nodes) < 6 THEN {}
   ELSE {a \in RTInts(nodes) \X (1..3) \X (1..3) : a[2] # a[3]}
-LocalSwap(nodes, ranks, c, n1, n2) ==
+LocalSwapD(nodes, ranks, c, n1, n2, dk) ==
   LET a0 == nodes[c].nhd[n1]
       b0 == nodes[c].nhd[n2]
       bi == nodes[b0].kind = "int"
@@ -192,10 +196,13 @@ LocalSwap(nodes, ranks, c, n1, n2) ==
       b == IF bi THEN b0 ELSE IF ai THEN a0 ELSE RTOther(nodes[c], {a0, b0})
   IN IF b = 0 THEN [nodes |-> nodes, ranks |-> ranks, panic |-> TRUE]              \* expect
      ELSE IF nodes[b].kind # "int" THEN [nodes |-> nodes, ranks |-> ranks, panic |-> TRUE]   \* assert
-     ELSE LET d == RTOther(nodes[b], {c})
+     ELSE LET d == RTOtherK(nodes[b], {c}, dk)
           IN IF d = 0 THEN [nodes |-> nodes, ranks |-> ranks, panic |-> TRUE]
              ELSE RTRes(SwapSubtrees(RTSt(nodes), c, a, b, d),
                         ClearRank(ClearRank(ClearRank(ranks, c, a), b, d), b, c))
+\* the code: d is the FIRST neighbour of b other than c (dk = 1).  This is the only place where the
+\* order of a neighbour list decides the outcome of a move on a valid tree.
+LocalSwap(nodes, ranks, c, n1, n2) == LocalSwapD(nodes, ranks, c, n1, n2, 1)
 
 \* move_random_subtree with the random choice (a, b) of ANY two nodes: the code re-draws until
 \* the path has at least 4 nodes; clears the WHOLE cache; move_subtree(path)
@@ -208,17 +215,60 @@ MoveSubtree(nodes, ranks, a, b) ==
 \* all results of one call of the named random move (the call is a no-op when the argument set
 \* is empty: fewer than 2 leaves / fewer than 6 nodes)
 RTSame(nodes, ranks) == [nodes |-> nodes, ranks |-> ranks, panic |-> FALSE]
-MoveResults(kind, nodes, ranks) ==
+MoveResultsD(kind, nodes, ranks, DS) ==
   CASE kind = "swap_leaves" ->
          IF SwapLeavesArgs(nodes) = {} THEN {RTSame(nodes, ranks)}
          ELSE {SwapLeaves(nodes, ranks, a[1], a[2]) : a \in SwapLeavesArgs(nodes)}
     [] kind = "local_swap" ->
          IF LocalSwapArgs(nodes) = {} THEN {RTSame(nodes, ranks)}
-         ELSE {LocalSwap(nodes, ranks, a[1], a[2], a[3]) : a \in LocalSwapArgs(nodes)}
+         ELSE {LocalSwapD(nodes, ranks, a[1][1], a[1][2], a[1][3], a[2]) : a \in LocalSwapArgs(nodes) \X DS}
     [] kind = "move_subtree" ->
          IF MoveSubtreeArgs(nodes) = {} THEN {RTSame(nodes, ranks)}
          ELSE {MoveSubtree(nodes, ranks, a[1], a[2]) : a \in MoveSubtreeArgs(nodes)}
     [] OTHER -> {}
+MoveResults(kind, nodes, ranks) == MoveResultsD(kind, nodes, ranks, {1})
+
+\* order-insensitive view of a node array: every neighbour list sorted
+RECURSIVE RTSorted(_)
+RTSorted(S) == IF S = {} THEN <<>> ELSE <<RTMin(S)>> \o RTSorted(S \ {RTMin(S)})
+SortNhds(nodes) == [i \in RTIdx(nodes) |-> [nodes[i] EXCEPT !.nhd = RTSorted(RTNhdSet(nodes[i]))]]
+
+\* ------------------------------------------------------------------ the annealer (annealer.rs, run())
+\* State a = [old, olds, best, bestw, bests, panic]: old_decomp (with its cache), old_score,
+\* best_decomp, best_width, best_score.  Temperature, cooling and the iteration bound only decide
+\* WHEN the loop stops and the value of the acceptance probability; the loop may stop after any
+\* iteration (so the result `best` is examined in every state) and acceptance of a non-improving
+\* proposal is a coin.  What is kept of the floating point: with adaptive cooling
+\*   t = temp * (1 + (score - best_score) / best_score)
+\* is NaN iff best_score = 0 and score = 0, then prob is NaN and random_bool(prob) panics
+\* (best_score = 0 and score > 0 gives t = inf, prob = 1: accepted).
+AnnealKinds == {"swap_leaves", "local_swap", "move_subtree"}
+AnnealStart(gr, nodes, ranks) ==
+  LET r0 == ComputeRanks(gr, nodes, ranks)      \* init_decomp.rankwidth(): the cache the caller left is trusted
+      d == [nodes |-> nodes, ranks |-> r0]
+  IN [old |-> d, olds |-> Score(r0), best |-> d, bestw |-> Width(r0), bests |-> Score(r0), panic |-> FALSE]
+\* one iteration: r is the result of the drawn move on a clone of old, coin the draw of random_bool
+AnnealStep(gr, a, adaptive, r, coin) ==
+  IF r.panic THEN [a EXCEPT !.panic = TRUE]
+  ELSE LET rk == ComputeRanks(gr, r.nodes, r.ranks)
+           score == Score(rk)
+           w == Width(rk)
+           d == [nodes |-> r.nodes, ranks |-> rk]
+           kept == [old |-> d, olds |-> score,
+                    best |-> IF w < a.bestw THEN d ELSE a.best,
+                    bestw |-> IF w < a.bestw THEN w ELSE a.bestw,
+                    bests |-> IF score < a.bests THEN score ELSE a.bests,
+                    panic |-> FALSE]
+       IN IF score < a.olds THEN kept
+          ELSE IF adaptive /\ a.bests = 0 /\ score = 0 THEN [a EXCEPT !.panic = TRUE]
+          ELSE IF coin THEN kept ELSE a
+\* the tree run() would return now is valid, no wider than the starting tree, and the width the
+\* annealer believes it has is its width
+AnnealerOK(gr, initw, a) ==      \* initw = TrueWidth of the starting tree
+  /\ ValidTree(gr, a.best.nodes)
+  /\ TrueWidth(gr, a.best.nodes) <= initw
+  /\ a.bestw = TrueWidth(gr, a.best.nodes)
+  /\ CacheCoherent(gr, a.best.nodes, a.best.ranks)
 
 \* the canonical caterpillar on n >= 2 vertices: leaves 1..n (leaf i holds vertex i), spine
 \* n+1 .. 2n-2; spine node k carries leaf k+1, the two ends carry one more leaf each
